@@ -61,11 +61,12 @@ def ringEdges : List V2 → List (V2 × V2)
   | [] => []
   | v :: rest => (v :: rest).zip (rest ++ [v])
 
-/-- `q` lies on the closed segment `a b` -/
+/-- `q` lies on the closed segment `a b`: `q - a` is parallel to `b - a`, points the same way and is
+    not longer (for `a = b` this forces `q = a`) -/
 def onSeg2 (q a b : V2) : Bool :=
   let cr := (b.x - a.x) * (q.y - a.y) - (b.y - a.y) * (q.x - a.x)
   let dt := (q.x - a.x) * (b.x - a.x) + (q.y - a.y) * (b.y - a.y)
-  decide (cr = 0) && decide (0 ≤ dt) && decide (dt ≤ V2.dsq a b)
+  decide (cr = 0) && decide (0 ≤ dt) && decide (V2.dsq q a ≤ V2.dsq a b)
 
 /-- even–odd rule -/
 def polyInterior (vs : List V2) (q : V2) : Bool :=
@@ -123,7 +124,7 @@ def onSeg3 (q a b : Pt) : Bool :=
   let cy := u.z * w.x - u.x * w.z
   let cz := u.x * w.y - u.y * w.x
   let dt := w.dot u
-  decide (cx = 0) && decide (cy = 0) && decide (cz = 0) && decide (0 ≤ dt) && decide (dt ≤ u.dot u)
+  decide (cx = 0) && decide (cy = 0) && decide (cz = 0) && decide (0 ≤ dt) && decide (Pt.dsq q a ≤ u.dot u)
 
 def segDistSq3 (q a b : Pt) : Rat :=
   let u := b.sub a
@@ -186,8 +187,13 @@ def Kind.parent : Kind → Option Kind
   | .disc => some .poly
   | _ => none
 
-/-- `isinstance(x, K)` for `x` of kind `k` -/
-def Kind.isa (k K : Kind) : Bool := k == K || (k.parent == some K)
+/-- `isinstance(x, K)` for `x` of kind `k` (`K` itself or the parent class of `k`) -/
+def Kind.isa (k K : Kind) : Bool :=
+  match k, K with
+  | .disc, .poly => true
+  | .all, .all | .empty, .empty | .poly, .poly | .disc, .disc | .foot, .foot | .line, .line
+  | .path, .path | .pts, .pts | .vol, .vol | .surf, .surf | .comp, .comp => true
+  | _, _ => false
 
 inductive Reg
   | all
